@@ -458,7 +458,8 @@ def absurd_set_token(t, cif_list=False):
         return False
     if "-" not in u and not cif_list:
         return False
-    return bool(re.search(r"(^|[^0-9])-[0-9]|[0-9]{7}|0[xX][0-9a-fA-F]{6}", u))
+    # also "08-11": strtoul base 0 stops after the 0 of an invalid octal number and the parser resynchronises on "-11"
+    return bool(re.search(r"(^|[^0-9])-[0-9]|[0-9]{7}|0[xX][0-9a-fA-F]{6}|(^|[^0-9a-fA-FxX])0[0-7]*[89]", u))
 
 
 def mutate(rng, s):
